@@ -39,12 +39,12 @@ func (a *AttrConditionPlanner) Process(ctx *shared.PlannerContext) (sql.ISelect,
 		return nil, err
 	}
 
-	err = a.aggregator(main)
+	where, err := a.aggregator(main)
 	if err != nil {
 		return nil, err
 	}
 
-	res := main.AndWhere(sql.Or(a.where...)).AndHaving(having)
+	res := main.AndWhere(sql.Or(where...)).AndHaving(having)
 
 	if ctx.RandomFilter.Max != 0 && len(ctx.CachedTraceIds) > 0 {
 		rawCachedTraceIds := make([]sql.SQLObject, len(ctx.CachedTraceIds))
@@ -92,31 +92,34 @@ func (a *AttrConditionPlanner) maybeCreateWhere() error {
 	return nil
 }
 
-func (a *AttrConditionPlanner) aggregator(main sql.ISelect) error {
+// aggregator adds the aggregated column to main and returns the WHERE terms of this call;
+// the planner itself is left as it is, so that every portion of a complex request reads the same attribute
+func (a *AttrConditionPlanner) aggregator(main sql.ISelect) ([]sql.SQLCondition, error) {
 	if a.AggregatedAttr == "" {
-		return nil
+		return a.where, nil
 	}
 
 	s := main.GetSelect()
 	if a.AggregatedAttr == "duration" {
 		s = append(s, sql.NewSimpleCol("toFloat64(duration)", "agg_val"))
 		main.Select(s...)
-		return nil
+		return a.where, nil
 	}
 
-	if strings.HasPrefix(a.AggregatedAttr, "span.") {
-		a.AggregatedAttr = a.AggregatedAttr[5:]
+	attr := a.AggregatedAttr
+	if strings.HasPrefix(attr, "span.") {
+		attr = attr[5:]
 	}
-	if strings.HasPrefix(a.AggregatedAttr, "resource.") {
-		a.AggregatedAttr = a.AggregatedAttr[9:]
+	if strings.HasPrefix(attr, "resource.") {
+		attr = attr[9:]
 	}
-	if strings.HasPrefix(a.AggregatedAttr, ".") {
-		a.AggregatedAttr = a.AggregatedAttr[1:]
+	if strings.HasPrefix(attr, ".") {
+		attr = attr[1:]
 	}
-	s = append(s, sql.NewCol(&sqlAttrValue{a.AggregatedAttr}, "agg_val"))
+	s = append(s, sql.NewCol(&sqlAttrValue{attr}, "agg_val"))
 	main.Select(s...)
-	a.where = append(a.where, sql.Eq(sql.NewRawObject("key"), sql.NewStringVal(a.AggregatedAttr)))
-	return nil
+	where := append([]sql.SQLCondition{}, a.where...)
+	return append(where, sql.Eq(sql.NewRawObject("key"), sql.NewStringVal(attr))), nil
 }
 
 func (a *AttrConditionPlanner) getCond(c *condition) (sql.SQLCondition, error) {
